@@ -319,11 +319,16 @@ Definition compiled_for (e : env) (bp : bplat) (repo : file) (tools : list file)
   : list (ostate * override) :=
   map (fun o => (apply_bp e bp o, o)) (profile_overrides (read_compiled repo tools) sel).
 
+(* TestSettings::new given the compiled overrides and the two profile tables *)
+Definition settings_with (e : env) (col : list (ostate * override))
+           (custom : option (list (key * sval))) (dflt : list (key * sval))
+           (t : test) (s : setting) : option sval :=
+  or_else (pass e t col s) (profile_value custom dflt s).
+
 Definition settings_for (e : env) (bp : bplat) (builtin repo : file) (tools : list file)
            (sel : key) (t : test) (s : setting) : option sval :=
-  or_else (pass e t (compiled_for e bp repo tools sel) s)
-          (profile_value (custom_profile builtin repo tools sel)
-                         (default_profile builtin repo tools) s).
+  settings_with e (compiled_for e bp repo tools sel)
+                (custom_profile builtin repo tools sel) (default_profile builtin repo tools) t s.
 
 (* the command line: `self.force_retries.unwrap_or_else(|| settings.retries())` in
    run_test_instance, `force_success_output.unwrap_or(test_setting)` and the same for
@@ -469,9 +474,14 @@ Definition enc_sval (v : option sval) : list (list N) :=
 Definition enc_settings (r : setting -> option sval) : list (list (list N)) :=
   map (fun s => enc_sval (r s)) all_settings.
 
-(* one case of the correspondence check: [] when the profile does not exist *)
+(* one case of the correspondence check: [] when the profile does not exist. The profile is
+   built once and queried for every test (Proofs/Overrides.v, run_case_spec: this is
+   [settings_for] on every test and setting) *)
 Definition run_case (e : env) (bp : bplat) (builtin repo : file) (tools : list file) (sel : key)
            (tests : list test) : list (list (list (list N))) :=
   if profile_exists builtin repo tools sel
-  then map (fun t => enc_settings (settings_for e bp builtin repo tools sel t)) tests
+  then let col := compiled_for e bp repo tools sel in
+       let custom := custom_profile builtin repo tools sel in
+       let dflt := default_profile builtin repo tools in
+       map (fun t => enc_settings (settings_with e col custom dflt t)) tests
   else [].
